@@ -63,6 +63,14 @@ fn addr_of(w: &World, s: AddrSel, original: SocketAddr) -> SocketAddr {
             a.set_port(original.port().wrapping_add(1 + d as u16 % 50));
             a
         }
+        AddrSel::MappedV6 => match original {
+            SocketAddr::V4(a) => SocketAddr::new(std::net::IpAddr::V6(a.ip().to_ipv6_mapped()), a.port()),
+            other => other,
+        },
+        AddrSel::OtherAdvertised => match w.node_by_addr(&original).and_then(|i| w.nodes[i].enr.udp6_socket()) {
+            Some(a6) => SocketAddr::V6(a6),
+            None => original,
+        },
     }
 }
 
